@@ -1901,7 +1901,13 @@ pub fn gen_template(rng: &mut Rng, k: &Knobs, reg: &Registry, name: &str) -> Def
 
 /// A single definition for the library tier (C14, C20): either kind.
 pub fn gen_single_def(rng: &mut Rng, k: &Knobs) -> Def {
-    let reg = Registry { templates: vec![leaf_template("Leaf")], functions: vec![("g".into(), 1)], has_circomlib: false };
+    // a Num2Bits-shaped template, so that binary conversions with constant and
+    // non-constant sizes are instantiated (the size test of C20)
+    let mut n2b = leaf_template("Num2Bits");
+    n2b.params = vec!["n".into()];
+    let mut b2n = leaf_template("Bits2Num");
+    b2n.params = vec!["n".into()];
+    let reg = Registry { templates: vec![leaf_template("Leaf"), n2b, b2n], functions: vec![("g".into(), 1)], has_circomlib: false };
     if rng.chance(1, 2) {
         gen_function(rng, k, &reg, "f")
     } else {
